@@ -7,6 +7,8 @@ from .semcheck import Case, dbs_ab, FACT_DBS_AB
 
 x, y, z = V('x'), V('y'), V('z')
 TERMS = [x, y, z, N(1)]
+# families that exist to pin one recorded finding to the property it is recorded under; the metamorphic checks (C07, C11) do not re-use them
+FINDING_FAMILIES = ('RECORD-FIELD-ORDER', 'FUNCTOR-GROUND-EXPLICIT')
 
 
 def static_ok(rules, pred, schema='AB'):
